@@ -2,7 +2,7 @@
 (* The abstract state the real chain is in after InitChain(g) and its first  *)
 (* (empty) block, for an abstract genesis g as the Go harness understands it *)
 (* (harness/world.go GenSpec).                                               *)
-EXTENDS Abci, Json
+EXTENDS Paginate, Json
 
 \* the abstract state the real chain is in after InitChain(Gen) and its first (empty) block
 RegInit(g) == [p |-> [feeReg |-> g.feeReg, feeRec |-> g.feeRec, feePur |-> g.feePur, denom |-> g.denom, def |-> g.def, max |-> g.max],
